@@ -352,6 +352,58 @@ def rule_bound(ctx) -> None:
               "the cooldown window test (turn - last) < cd is missing or altered")
 
 
+def rule_finite_intake(ctx) -> None:
+    """the three bounds are tests of the form `mag > cap` / `norm <= cap`: a NaN magnitude fails every comparison, passes the
+    novelty clamp, makes the norm NaN and - through scale = cap / norm - every approved delta of the plan; +inf and -inf on one
+    target raise out of fsum.  So non-finite magnitudes are dealt with where proposals enter the arithmetic: every term the
+    merge step files for summation is known not to be NaN (a `t != t` / isnan / isfinite test on that path)."""
+    fn = ctx.func(T4 + ":_combine_by_ckey")
+    cfg = ctx.cfg(fn)
+    rd = ctx.rd(fn)
+    # the lists that are summed: arguments of the summation helper
+    summed = set()
+    for x in walk_no_defs(fn.node):
+        if isinstance(x, ast.Call) and call_tail(x) in ("_exact_sum", "fsum", "sum") and x.args and isinstance(x.args[0], ast.Name):
+            for d in rd.all_defs:
+                if d.name == x.args[0].id:
+                    summed.add(d.name)
+    sites = []
+    for n in cfg.nodes:
+        if n.kind != "stmt":
+            continue
+        for x in walk_no_defs(n.ast):
+            if isinstance(x, ast.Call) and call_tail(x) == "append" and isinstance(x.func.value, ast.Name) and x.func.value.id in summed and x.args:
+                sites.append((n, x.args[0]))
+            if isinstance(x, ast.Assign) and isinstance(x.value, ast.Tuple) and x.value.elts and isinstance(x.value.elts[0], ast.List) and len(x.value.elts[0].elts) == 1:
+                sites.append((n, x.value.elts[0].elts[0]))
+    ctx.floor("C03.BOUND", "terms filed for summation in the merge step", len(sites), 2)
+    for n, term in sites:
+        ok = False
+        if isinstance(term, ast.Name):
+            v = term.id
+            for t, pol in cfg.facts(n):
+                tt = t.replace(" ", "")
+                if (tt == f"{v}!={v}" and not pol) or (tt == f"{v}=={v}" and pol) or (("isnan(" + v + ")") in tt and not pol) or (("isfinite(" + v + ")") in tt and pol):
+                    ok = True
+        ctx.check(ok, "C03.BOUND", ctx.okey(f"{fn.qual}/term-is-not-nan"), fn.loc(term), f"`{src(term)[:30]}` is filed only where it is known not to be NaN",
+                  f"`{src(term)[:40]}` enters the sum unchecked: a NaN proposal passes `mag > cap` (False), turns the L2 norm into NaN and, through scale = cap / norm, EVERY approved delta of the plan - "
+                  "no bound holds for any target; +inf and -inf on one target raise out of fsum")
+
+
+def rule_cooldown_history(ctx) -> None:
+    """"none originating from an operation still in cooldown" for every cooldown history: the test `turn - last < cooldown`
+    is applied to whatever turn number the history holds.  Admitting only values of one exact type (`isinstance(last, int)`)
+    silently switches the cooldown off for a history that went through JSON or a float store (9.0, "9")."""
+    fn = ctx.func(T4 + ":_collect_blocked_ops")
+    cfg = ctx.cfg(fn)
+    adds = [(n, c) for n in cfg.nodes for c in node_calls(n) if call_tail(c) == "add" and isinstance(c.func, ast.Attribute)]
+    ctx.floor("C03.BOUND", "sites that block an operation", len(adds), 1)
+    for n, c in adds:
+        typed = [t for t, pol in cfg.facts(n) if pol and t.replace(" ", "").startswith("isinstance(") and t.replace(" ", "").endswith(",int)")]
+        ctx.check(not typed, "C03.BOUND", ctx.okey(f"{fn.qual}/history-value-not-type-gated"), fn.loc(c), "an operation is blocked whatever number type its last turn was stored as",
+                  f"an operation is blocked only where `{typed[0] if typed else ''}`: a last-turn value stored as 9.0 or '9' is skipped without a trace and the op's deltas are approved while it is still in cooldown")
+
+
 def _total_mag_key(k: Optional[ast.AST]) -> bool:
     if not isinstance(k, ast.Lambda) or not isinstance(k.body, ast.Tuple) or len(k.body.elts) < 2:
         return False
@@ -605,6 +657,8 @@ def run(ctx) -> None:
     rule_pure(ctx)
     rule_pipe(ctx)
     rule_bound(ctx)
+    rule_finite_intake(ctx)
+    rule_cooldown_history(ctx)
     rule_prov(ctx)
     rule_prov_index(ctx)
     rule_orderins(ctx)
